@@ -70,7 +70,7 @@ def run_R2(ctx, case):
     m.bsr_hook = bsr_hook
     try:
         r = m.run(0, max_steps=16)
-    except (x86sem.Undecodable, x86sem.Fault) as e:
+    except x86sem.Fault as e:      # Undecodable = limitation of the x86 model: propagates, the job is INCONCLUSIVE
         q.n += 1; q.sat += 1; q.failed.append(('randomx_reciprocal_fast does not execute: %s' % e, {})); return result('R2', 'bit length %d' % b, q, paths=1)
     ok = r[0] == 'ret' and isinstance(r[1], Ptr) and r[1].obj == 'caller'; q.n += 1; q.unsat += ok; q.sat += (not ok)
     if not ok: q.failed.append(('assembly routine does not return to its caller', {}))
